@@ -107,6 +107,9 @@ def make_soil(spec):
 def make_crop(spec):
     ac = _aquacrop()
     kw = dict(spec.get("kw", {}))
+    if spec.get("_np_kw"):                       # parameters handed over as numpy scalars (a row of an array / a pandas table)
+        import numpy as _np
+        kw = {k: (_np.int64(v) if isinstance(v, int) and not isinstance(v, bool) else _np.float64(v) if isinstance(v, float) else v) for k, v in kw.items()}
     return ac.Crop(spec["name"], planting_date=spec.get("planting_date", "05/01"),
                    harvest_date=spec.get("harvest_date"), **kw)
 
@@ -196,6 +199,32 @@ def make_model(sc, objs=None):
         objs = make_objects(sc)
     return ac.AquaCropModel(sim_start_time=sc["start"], sim_end_time=sc["end"],
                             off_season=bool(sc.get("off_season", False)), **objs)
+
+
+OBJ_KEYS = {"soil": ("soil", lambda sc: make_soil(sc.get("soil", {}))), "crop": ("crop", lambda sc: make_crop(sc["crop"])),
+            "irr": ("irrigation_management", lambda sc: make_irr(sc.get("irr"))), "field": ("field_management", lambda sc: make_field(sc.get("field"))),
+            "fallow": ("fallow_field_management", lambda sc: make_field(sc.get("fallow"))), "gw": ("groundwater", lambda sc: make_gw(sc.get("gw"))),
+            "iwc": ("initial_water_content", lambda sc: make_iwc(sc.get("iwc"))), "co2": ("co2_concentration", lambda sc: make_co2(sc.get("co2")))}
+
+
+def make_model_after_prelude(sc, objs=None, init_only=False):
+    """sc['_prelude'] = {...}: ANOTHER model is built first from the very same user objects (keys of the prelude override the scenario; an overridden
+    object key - soil, crop, ... - gets its own object, everything else is SHARED) and run to termination (or only initialised); the model of sc is
+    then built from the used objects."""
+    if objs is None:
+        objs = make_objects(sc)
+    pre = dict(sc)
+    pre.update(sc["_prelude"])
+    objs_pre = dict(objs)
+    for k, (name, mk) in OBJ_KEYS.items():
+        if k in sc["_prelude"]:
+            objs_pre[name] = mk(pre)
+    m0 = make_model(pre, objs_pre)
+    if init_only:
+        m0._initialize()
+    else:
+        m0.run_model(till_termination=True)
+    return make_model(sc, objs), objs
 
 
 def base(**over):
